@@ -3,6 +3,7 @@ package main
 // C18 — diagnostics never disclose credentials (E5: secrecy taint).
 
 import (
+	"os"
 	"fmt"
 	"go/token"
 	"go/types"
@@ -14,6 +15,11 @@ import (
 
 func init() {
 	register(&PropertyCheck{ID: "C18", Level: "proof", Run: checkC18, Canaries: []Canary{
+		{Name: "buffer-drained-into-the-writer", Rule: "R18.1", Where: "(*Connect).dump#write", Edits: []Edit{{"connect.go", "\tp.UserProperties.dump(w)\n}\n\nfunc stars", "\tp.UserProperties.dump(w)\n\tvar bb bytes.Buffer\n\tbb.Write(p.password)\n\tbb.WriteTo(w)\n}\n\nfunc stars"}}},
+		{Name: "min-of-a-credential-byte", Rule: "R18.1", Where: "(*Connect).dump", Edits: []Edit{{"connect.go", "\tp.UserProperties.dump(w)\n}\n\nfunc stars", "\tp.UserProperties.dump(w)\n\tif len(p.password) > 0 {\n\t\tfmt.Fprintln(w, min(p.password[0], 9))\n\t}\n}\n\nfunc stars"}}},
+		{Name: "pointer-receiver-method-reads-the-credential", Rule: "R18.2", Where: "Connect", Edits: []Edit{{"connect.go", "\tfmt.Fprintf(w, \"Username: %v\\n\", stars(len(p.Username())))\n", "\tfmt.Fprintf(w, \"Username: %v\\n\", stars(len(p.Username())))\n\tif p.username.startsWithSlash() {\n\t\tfmt.Fprintln(w, \"Username looks like a path\")\n\t}\n"}, {"connect.go", "func stars(v int) string {", "func (v *wstring) startsWithSlash() bool { return len(*v) > 0 && (*v)[0] == '/' }\n\nfunc stars(v int) string {"}}},
+		{Name: "table-row-printed-by-a-method-of-the-row", Rule: "R18.1", Where: "writeTo", Edits: []Edit{{"connect.go", "\tfmt.Fprintf(w, \"Username: %v\\n\", stars(len(p.Username())))\n", "\trows := []dumpRow{{\"Username\", stars(len(p.Username()))}, {\"Password\", p.Password()}}\n\tfor i := range rows {\n\t\trows[i].writeTo(w)\n\t}\n"}, {"connect.go", "func stars(v int) string {", "type dumpRow struct {\n\tname  string\n\tvalue interface{}\n}\n\nfunc (r *dumpRow) writeTo(w io.Writer) { fmt.Fprintf(w, \"%s: %v\\n\", r.name, r.value) }\n\nfunc stars(v int) string {"}}},
+		{Name: "table-rows-with-masked-credentials", Silent: true, Edits: []Edit{{"connect.go", "\tfmt.Fprintf(w, \"Username: %v\\n\", stars(len(p.Username())))\n", "\trows := []dumpRow{{\"Username\", stars(len(p.Username()))}, {\"Password\", stars(len(p.Password()))}}\n\tfor i := range rows {\n\t\trows[i].writeTo(w)\n\t}\n"}, {"connect.go", "func stars(v int) string {", "type dumpRow struct {\n\tname  string\n\tvalue interface{}\n}\n\nfunc (r *dumpRow) writeTo(w io.Writer) { fmt.Fprintf(w, \"%s: %v\\n\", r.name, r.value) }\n\nfunc stars(v int) string {"}}},
 		{Name: "dump-prints-username", Rule: "R18.1", Where: "(*Connect).dump", Edits: []Edit{{"connect.go", "fmt.Fprintf(w, \"Username: %v\\n\", stars(len(p.Username())))", "fmt.Fprintf(w, \"Username: %v\\n\", p.Username())"}}},
 		{Name: "string-appends-password-prefix", Rule: "R18.1", Where: "(*Connect).String", Edits: []Edit{{"connect.go", "\t\tp.fill(_LEN, 0),\n\t)\n}", "\t\tp.fill(_LEN, 0),\n\t) + string(p.password[:1])\n}"}}},
 		{Name: "string-compares-password", Rule: "R18.2", Where: "(*Connect).String", Edits: []Edit{{"connect.go", "func (p *Connect) String() string {\n\treturn fmt.Sprintf(", "func (p *Connect) String() string {\n\tif string(p.password) == \"admin\" {\n\t\treturn \"CONNECT default password\"\n\t}\n\treturn fmt.Sprintf("}}},
@@ -67,6 +73,13 @@ func (t *taint) mark(v ssa.Value, why string) {
 	t.tainted[v] = true
 	t.why[v] = why
 	t.changed = true
+	if os.Getenv("MQV_TAINT") != "" {
+		fn := ""
+		if i, ok := v.(ssa.Instruction); ok && i.Parent() != nil {
+			fn = i.Parent().Name()
+		}
+		fmt.Fprintf(os.Stderr, "taint %s %s = %s (%s)\n", fn, v.Name(), v.String(), why)
+	}
 }
 
 func (t *taint) markMem(v ssa.Value, why string) {
@@ -77,6 +90,9 @@ func (t *taint) markMem(v ssa.Value, why string) {
 	t.memT[b] = true
 	t.changed = true
 	t.why[b] = why
+	if os.Getenv("MQV_TAINT") != "" {
+		fmt.Fprintf(os.Stderr, "memtaint %s = %s (%s)\n", b.Name(), b.String(), why)
+	}
 }
 
 // baseObject: the value that identifies the memory a slice/pointer points to.
@@ -245,12 +261,29 @@ func (t *taint) step(fn *ssa.Function, ins ssa.Instruction) {
 			if t.isT(x.X) || t.memT[baseObject(x.X)] {
 				t.mark(x, "load from memory holding credential bytes")
 			}
+			// a field read through a pointer that was handed in pointing at memory holding credential bytes (a row
+			// of the caller's table, `(*field).writeTo`)
+			if fa, ok := x.X.(*ssa.FieldAddr); ok {
+				if r, isP := fieldRoot(fa).(*ssa.Parameter); isP && (t.memT[r] || t.tainted[r]) {
+					t.mark(x, "load through a pointer into memory holding credential bytes")
+				}
+			}
 			if t.memLenT[baseObject(x.X)] || t.lenT[x.X] {
 				t.markLen(x)
 			}
 		default:
 			if t.isT(x.X) {
 				t.mark(x, t.whyOf(x.X))
+			}
+		}
+	case *ssa.FieldAddr:
+		// the address of a credential field points at credential bytes: whoever receives it (a pointer-receiver
+		// method of the field's type, a helper) reads content when it loads through it
+		if pt, ok := x.X.Type().Underlying().(*types.Pointer); ok && t.secret[fmt.Sprintf("%s.%d", typeStr(pt.Elem()), x.Field)] {
+			if !t.memT[x] {
+				t.memT[x] = true
+				t.why[x] = "address of the credential field at " + t.p.Pos(x.Pos())
+				t.changed = true
 			}
 		}
 	case *ssa.Convert:
@@ -453,6 +486,15 @@ func (t *taint) step(fn *ssa.Function, ins ssa.Instruction) {
 				if t.isT(cc.Args[0]) {
 					t.mark(x, t.whyOf(cc.Args[0]))
 				}
+			case "min", "max":
+				for _, a := range cc.Args {
+					if t.isT(a) {
+						t.mark(x, t.whyOf(a))
+					}
+					if t.isLenT(a) {
+						t.markLen(x)
+					}
+				}
 			}
 			return
 		}
@@ -642,6 +684,15 @@ func checkC18(p *Prog, c *Check) {
 									c.Bad("R18.1", qname(fn)+"#write", posOf(p, ins), "credential content is handed to a writer through "+fullName(sc))
 								}
 							}
+						}
+					}
+					// a buffer drained into a writer: (*bytes.Buffer).WriteTo(w), (*strings.Reader).WriteTo(w) …
+					if sc := cc.StaticCallee(); sc != nil && sc.Blocks == nil && sc.Name() == "WriteTo" && sc.Signature.Recv() != nil && len(cc.Args) == 2 {
+						nsinks++
+						fnSinks++
+						if t.isT(cc.Args[0]) || t.memT[baseObject(cc.Args[0])] {
+							fnBad++
+							c.Bad("R18.1", qname(fn)+"#write", posOf(p, ins), "a buffer holding credential bytes is drained into the writer through "+fullName(sc))
 						}
 					}
 					if cc.IsInvoke() && cc.Method.Name() == "Write" && len(cc.Args) == 1 {
